@@ -63,6 +63,8 @@ class NodeGetData(Contract):
                  "canopen.objectdictionary:ODVariable.encode_raw")
     props = ("C02", "C06")
     cases = {"%s/%dcb" % (t, n): (TYPES[t], n) for t in ("UNSIGNED8", "INTEGER16", "UNSIGNED32", "DOMAIN") for n in (0, 1, 2)}
+    # longer concrete lists as well (code that counts callbacks); ANY number is NodeGetDataAnyCallbacks
+    cases.update({"UNSIGNED8/%dcb" % n: (TYPES["UNSIGNED8"], n) for n in (3, 4)})
     exits = ("return", "raise:SdoAbortedError")
     max_paths = 8000
 
@@ -189,3 +191,61 @@ class NodeSetDataLengths(NodeSetData):
         return Call(("method", node, "set_data"), [w.pre["index"], w.pre["sub"], data], {"check_writable": chk})
 
     ensures = {"store-exact_callbacks-told_refused-unchanged": lambda s: NodeSetData.ok(s)}
+
+
+@contract
+class NodeGetDataAnyCallbacks(Contract):
+    """the same precedence for ANY number of read callbacks: every callback list is a prefix of callbacks that do not
+    answer (arbitrary length, summarised: each is consulted once, in order, with the request's index / sub-index / object),
+    then possibly a first one that answers, then a rest that must not be consulted.  The prefix is an unknown-prefix list
+    whose elements return None (contract family, `silent`); the tail is two concrete callbacks, each answering or not"""
+    target = "canopen.node.local:LocalNode.get_data"
+    id = "NodeGetDataAnyCallbacks"
+    functions = NodeGetData.functions
+    props = ("C02", "C06")
+    cases = {t: TYPES[t] for t in ("UNSIGNED8", "INTEGER16", "UNSIGNED32", "DOMAIN")}
+    exits = ("return", "raise:SdoAbortedError")
+    max_paths = 8000
+
+    def setup(self, w, case):
+        node = mk_node(w, case, 2)
+        pre = w.plist("silent_read_callbacks", 3, elem=lambda i: w.obj("env.od:ReadCb", name="p%d" % i, result=None), silent=True)
+        tail = w.pre["rcbs"]
+        if w.native:
+            lst, nprefix = list(pre) + list(tail), len(pre)
+        else:
+            from pyvc.interp import SList
+            lst = SList(list(pre.items) + list(tail), pre.base)
+            nprefix = None if pre.base is not None else len(pre.items)
+        w.setfield(node, "_read_callbacks", lst)
+        chk = w.bool("check_readable")
+        had = stored(_S(w), w.pre["store"], w.pre["index"], w.pre["sub"]) if not w.native else None
+        w.pre.update(chk=chk, had=had, nprefix=nprefix)
+        return Call(("method", node, "get_data"), [w.pre["index"], w.pre["sub"]], {"check_readable": chk})
+
+    @staticmethod
+    def ok(s):
+        import copy
+        p = s.pre
+        refused = (not bool(p["present"])) or (not bool(p["found"])) or \
+            (bool(p["chk"]) and p["acc"] not in ("rw", "ro", "const"))
+        if refused:
+            return NodeGetData.ok(s)            # the CiA 301 code and no callback consulted at all
+        ev = list(s.ev)
+        if p["nprefix"] is None:
+            kw = tuple(sorted({"index": p["index"], "subindex": p["sub"], "od": p["var"]}.items()))
+            if not ev or ev[0][0] != "foreach-call":
+                return False
+            first = S.ev_eq(s.w.interp, ev[0], ("foreach-call", "silent_read_callbacks", (), kw))
+            rest = ev[1:]
+        else:
+            n = p["nprefix"]
+            if len(ev) < n:
+                return False
+            first = S.ev_eq(s.w.interp, ev[:n], [("read_cb", "p%d" % i, p["index"], p["sub"], p["var"]) for i in range(n)])
+            rest = ev[n:]
+        s2 = copy.copy(s)
+        s2.ev = rest
+        return And(first, NodeGetData.ok(s2))
+
+    ensures = {"precedence-for-any-number-of-callbacks": lambda s: NodeGetDataAnyCallbacks.ok(s)}
